@@ -12,7 +12,19 @@ block    = ("h", level 1..6, inline)                    heading
          | ("pre", [inline(words only) line, ...])       lines starting with one space
 inline   = list of: ("w", word) | ("b", variant, inline) | ("i", variant, inline) | ("link", target, inline)
                     | ("ext", url, inline) | ("ref", inline)
-Leaves are unique alphanumeric words, so every leaf can be found again in the parse tree.
+                    | ("x", token, glue_left, glue_right)     a SHORT REPEATED text token: one punctuation character
+                                                              (: | , ; / &amp;) or the repeated word "und"; glue_* = no blank
+                                                              between it and its neighbour ("[[A]]:[[B]] w1:w2")
+                    | ("apo", kind, where, inline, word)      an apostrophe run that is ONE apostrophe longer than the markup:
+                          kind "i" where "close":  ''body'''word      (possessive:  ''Hamlet'''s)
+                          kind "b" where "close":  '''body''''word
+                          kind "i" where "open":   word'''body''      (elision:  L'''arbre'')
+                          kind "b" where "open":   word''''body'''
+Leaves are the maximal alphanumeric runs and the single punctuation characters of the text (vt/harness/c02_impl.py splits the
+captions of the Text nodes the same way, so the leaf sequence does not depend on how the parser chops text into nodes).  Words
+are unique (every such leaf can be found again in the parse tree); the "x" tokens and the literal apostrophe are deliberately
+NOT unique: the same token occurs several times among the children of one parent, alone between two non-text siblings (links,
+named URLs, styles) and inside longer text runs - the shape on which deleting/moving "the first equal sibling" goes wrong.
 
 The denotation of a document is the list of its leaves in source order, each with
   chain  = structural ancestors, outermost first: ("sec", level) / ("heading",) / ("ul",) ("ol",) ("li",) ("dt",) ("dd",)
@@ -25,6 +37,14 @@ Kept away from ambiguity (the property only speaks about well-formed constructs)
     they do not nest).  The first and last element of a ''/''' span is a word, except in the "touching" spans made by
     `touch_span`: there the inner span sits at the right edge, the left edge or both edges of the outer one, which gives runs of
     five apostrophes (three-w-two-w-five, five-w-two-w-three, five-w-five).  Two spans never follow each other without a word between;
+  * a run one apostrophe longer than the markup ("apo"): the surplus apostrophe is literal text.  MediaWiki (Parser::doQuotes)
+    makes the FIRST apostrophe of the run the literal one (`$arr[$i-1] .= "'"`), so it belongs to the text in front of the run:
+    ''Hamlet'''s = <i>Hamlet'</i>s, L'''arbre'' = L'<i>arbre</i>, '''Lear''''s = <b>Lear'</b>s.  A run of four is resolved
+    locally; a run of three is read as apostrophe + italic only when the line has an odd number of both '' and ''' runs, and
+    WHICH ''' run is chosen depends on the preceding characters - so a physical line with a three-run "apo" has no other '''
+    (or five) run at all (bold there is <b>/<strong> only), which leaves exactly one candidate;
+  * "x" tokens: never the first thing on a line (: ; would be list markers), no ':' in a list line whose prefix has a ';', no '|'
+    in tables and link labels, never a WORD glued to a link (link trail), only punctuation;
   * list items, headings, cells written on one line contain no newline; a colon appears in a list line only as THE separator of
     a one-line definition item (prefix ending in ';', colon at top level of the line, no colon in the term outside link targets,
     urls and refs); a line after such an item that extends its prefix ("; t : d" then ";* x") is a sub-list of the description;
@@ -33,6 +53,9 @@ Kept away from ambiguity (the property only speaks about well-formed constructs)
   * no links inside links, no refs inside refs, no ext-link label containing ']'."""
 
 WORDCHARS = "abcdefghijklmnopqrstuvwxyz"
+PUNCT = [":", ":", "|", ",", ";", "/", "&amp;", "und"]
+X_TEXT = {"&amp;": "&"}
+APO = "'"
 
 
 class Gen:
@@ -40,6 +63,8 @@ class Gen:
         self.rng = rng
         self.n = 0
         self.size = size
+        self.forbid = frozenset()   # "x" tokens that would be markup in the current context
+        self.noq3 = False           # the current physical line holds a three-run "apo": no other bold quote runs on it
 
     def word(self):
         self.n += 1
@@ -53,24 +78,29 @@ class Gen:
         out = []
         for _ in range(rng.randint(1, 3)):
             r = rng.random()
-            if depth >= 3 or r < 0.45:
+            if depth <= 1 and rng.random() < 0.12:
+                out.extend(self.sep_run(allow_link, allow_b, allow_i))
+            elif depth >= 3 or r < 0.45:
                 out.extend(self.words(rng.randint(1, 2)))
             elif r < 0.57 and allow_b:
-                v = rng.choice(["q", "q", "tag", "strong"])
+                v = rng.choice(["tag", "strong"] if self.noq3 else ["q", "q", "tag", "strong"])
                 inner = self.words(1) + (self.inline(depth + 1, allow_link, allow_ref, allow_b=False, allow_i=allow_i) if rng.random() < 0.5 else []) + self.words(1)
                 out.append(("b", v, inner))
             elif r < 0.69 and allow_i:
                 v = rng.choice(["q", "q", "tag", "em"])
                 inner = self.words(1) + (self.inline(depth + 1, allow_link, allow_ref, allow_b=allow_b, allow_i=False) if rng.random() < 0.5 else []) + self.words(1)
                 out.append(("i", v, inner))
-            elif r < 0.74 and allow_b and allow_i:
+            elif r < 0.74 and allow_b and allow_i and not self.noq3:
                 out.append(self.touch_span())
             elif r < 0.80 and allow_link:
                 t = "T" + self.word()
                 if rng.random() < 0.3:
                     out.append(("link", t, []))
                 else:
+                    saved = self.forbid
+                    self.forbid = saved | {"|"}
                     out.append(("link", t, self.inline(depth + 1, False, False, allow_b, allow_i)))
+                    self.forbid = saved
             elif r < 0.88 and allow_link:
                 out.append(("ext", "http://example.org/" + self.word(), self.inline(depth + 1, False, False, allow_b, allow_i)))
             elif r < 0.95 and allow_ref:
@@ -80,6 +110,74 @@ class Gen:
             # separate apostrophe runs: always put a word between two elements
             out.extend(self.words(1))
         return out
+
+    def sep(self, seps):
+        rng = self.rng
+        tok = rng.choice(seps)
+        if tok.isalpha():
+            return ("x", tok, False, False)
+        gl, gr = rng.choice([(True, True), (True, True), (True, True), (False, False), (True, False), (False, True)])
+        return ("x", tok, gl, gr)
+
+    def sep_item(self, allow_link, allow_b, allow_i):
+        rng = self.rng
+        r = rng.random()
+        if r < 0.3 and allow_link:
+            return [("link", "T" + self.word(), [])]
+        if r < 0.42 and allow_link:
+            return [("link", "T" + self.word(), self.words(rng.randint(1, 2)))]
+        if r < 0.55 and allow_link:
+            return [("ext", "http://example.org/" + self.word(), self.words(rng.randint(1, 2)))]
+        if r < 0.67 and allow_b:
+            return [("b", rng.choice(["tag", "strong"] if self.noq3 else ["q", "tag", "strong"]), self.words(rng.randint(1, 2)))]
+        if r < 0.8 and allow_i:
+            return [("i", rng.choice(["q", "tag", "em"]), self.words(rng.randint(1, 2)))]
+        return self.words(rng.randint(1, 2))
+
+    def sep_run(self, allow_link=True, allow_b=True, allow_i=True):
+        """items (links, named URLs, styled spans, words) separated by the SAME one or two short tokens, glued or not, then
+        a plain text run that contains the token again:  [[A]]:[[B]] w1 w2:w3  |  <b>a</b> | <b>b</b> | w1 | w2"""
+        rng = self.rng
+        alpha = [t for t in PUNCT if t not in self.forbid]
+        seps = [rng.choice(alpha)] + ([rng.choice(alpha)] if rng.random() < 0.3 else [])
+        out = []
+        n = rng.randint(2, 4)
+        for j in range(n):
+            out.extend(self.sep_item(allow_link, allow_b, allow_i))
+            if j < n - 1:
+                out.append(self.sep(seps))
+        if rng.random() < 0.85:
+            out.extend(self.words(rng.randint(1, 2)))
+            for _ in range(rng.randint(1, 2)):
+                out.append(self.sep(seps))
+                out.extend(self.words(1))
+        return out
+
+    def plan_line(self):
+        """decide whether the physical line about to be generated gets an "apo" element; returns (plan, saved flag)"""
+        r = self.rng.random()
+        plan = "i" if r < 0.06 else "b" if r < 0.10 else None
+        saved = self.noq3
+        self.noq3 = saved or plan == "i"
+        return plan, saved
+
+    def put_apo(self, inl, planned):
+        """put the planned "apo" element at a random top-level position of the inline list `inl` (in place)"""
+        plan, saved = planned
+        self.noq3 = saved
+        if plan is None:
+            return inl
+        rng = self.rng
+        body = self.words(rng.randint(1, 2))
+        if rng.random() < 0.25:
+            body = [("link", "T" + self.word(), [])]
+        e = ("apo", plan, rng.choice(["close", "close", "open"]), body, self.word())
+        inl.insert(rng.randint(0, len(inl)), e)
+        return inl
+
+    def apo_line(self, *a, **kw):
+        planned = self.plan_line()
+        return self.put_apo(self.inline(*a, **kw), planned)
 
     def touch_span(self):
         """bold and italic by apostrophes, the inner span touching an edge of the outer one (runs of five apostrophes)"""
@@ -103,6 +201,8 @@ class Gen:
         r = rng.random()
         if r < 0.15:
             return self.words(rng.randint(1, 2))
+        if self.noq3:
+            return self.inline(1, allow_ref=False)
         if r < 0.55:
             out = [self.touch_span()]
         elif r < 0.7:
@@ -122,10 +222,17 @@ class Gen:
         prefix = rng.choice("*#:;") if rng.random() < 0.5 else rng.choice("*#")
         for _ in range(rng.randint(1, 6)):
             defn = prefix[-1] == ";" and rng.random() < 0.6
+            saved = self.forbid
+            if ";" in prefix:
+                self.forbid = saved | {":"}
+            planned = self.plan_line()
             if defn:
-                lines.append((prefix, self.term(), self.inline(1, allow_ref=rng.random() < 0.3)))
+                term, desc = self.term(), self.inline(1, allow_ref=rng.random() < 0.3)
+                self.put_apo(rng.choice([term, desc]), planned)
+                lines.append((prefix, term, desc))
             else:
-                lines.append((prefix, self.inline(1, allow_ref=rng.random() < 0.3), None))
+                lines.append((prefix, self.put_apo(self.inline(1, allow_ref=rng.random() < 0.3), planned), None))
+            self.forbid = saved
             r = rng.random()
             if r < 0.3 and len(prefix) < maxdepth:
                 prefix = prefix + rng.choice("*#:" if rng.random() < 0.8 else "*#:;")
@@ -138,8 +245,11 @@ class Gen:
     def table_block(self, depth):
         rng = self.rng
         rows = []
+        saved_forbid = self.forbid
+        self.forbid = saved_forbid | {"|"}
         for _ in range(rng.randint(1, 3)):
             cells = []
+            planned = self.plan_line()          # cells written with || share one physical line
             for _ in range(rng.randint(1, 3)):
                 hdr = rng.random() < 0.3
                 if depth < 2 and rng.random() < 0.25:
@@ -147,7 +257,13 @@ class Gen:
                 else:
                     body = ("inl", self.inline(1))
                 cells.append((hdr, body))
+            inl_cells = [body[1] for _h, body in cells if body[0] == "inl"]
+            if inl_cells:
+                self.put_apo(rng.choice(inl_cells), planned)
+            else:
+                self.noq3 = planned[1]
             rows.append(cells)
+        self.forbid = saved_forbid
         return ("table", rows)
 
     def styled_run(self):
@@ -167,14 +283,14 @@ class Gen:
         if r < 0.03 and depth == 0:
             return self.styled_run()
         if r < 0.35:
-            return ("p", [self.inline() for _ in range(rng.randint(1, 2))])
+            return ("p", [self.apo_line() for _ in range(rng.randint(1, 2))])
         if r < 0.6:
             return self.list_block()
         if r < 0.75 and depth < 2:
             return self.table_block(depth)
         if r < 0.85 and not in_cell:
             return ("pre", [self.words(rng.randint(1, 3)) for _ in range(rng.randint(1, 3))])
-        return ("p", [self.inline()])
+        return ("p", [self.apo_line()])
 
     def doc(self):
         rng = self.rng
@@ -183,7 +299,7 @@ class Gen:
             blocks.append(self.block())
         level = rng.randint(1, 3)
         for _ in range(rng.randint(0, self.size)):
-            blocks.append(("h", level, self.inline(1, allow_ref=False)))
+            blocks.append(("h", level, self.apo_line(1, allow_ref=False)))
             for _ in range(rng.randint(0, 3)):
                 blocks.append(self.block())
             level = max(1, min(6, level + rng.choice([-2, -1, 0, 0, 1, 1, 2])))
@@ -196,10 +312,22 @@ class Gen:
 
 def ser_inline(rng, inl):
     out = []
+    glue = True            # no blank in front of the first element
     for i, e in enumerate(inl):
         k = e[0]
         if k == "w":
             s = e[1]
+        elif k == "x":
+            s = e[1]
+            if e[2]:
+                glue = True
+        elif k == "apo":
+            q = "''" if e[1] == "i" else "'''"
+            sp = rng.choice(["", "", "", " "])
+            if e[2] == "close":
+                s = "%s%s%s'%s%s" % (q, ser_inline(rng, e[3]), q, sp, e[4])
+            else:
+                s = "%s%s'%s%s%s" % (e[4], sp, q, ser_inline(rng, e[3]), q)
         elif k == "b":
             body = ser_inline(rng, e[2])
             s = {"q": "'''%s'''", "tag": "<b>%s</b>", "strong": "<strong>%s</strong>"}[e[1]] % body
@@ -212,8 +340,11 @@ def ser_inline(rng, inl):
             s = "[%s %s]" % (e[1], ser_inline(rng, e[2]))
         elif k == "ref":
             s = "<ref>%s</ref>" % ser_inline(rng, e[1])
+        if not glue:
+            out.append(" ")
         out.append(s)
-    return " ".join(out)
+        glue = k == "x" and e[3]
+    return "".join(out)
 
 
 def ser_block(rng, b, first=False):
@@ -291,6 +422,10 @@ def den_inline(inl, bold, italic):
         k = e[0]
         if k == "w":
             out.append(["L", e[1], bold, italic])
+        elif k == "x":
+            out.append(["L", X_TEXT.get(e[1], e[1]), bold, italic])
+        elif k == "apo":
+            out.extend(den_inline(apo_expand(e), bold, italic))
         elif k == "b":
             out.extend(den_inline(e[2], True, italic))        # styles are leaf attributes, not structure
         elif k == "i":
@@ -302,6 +437,15 @@ def den_inline(inl, bold, italic):
         elif k == "ref":
             out.append(["N", ["ref"], den_inline(e[1], bold, italic)])
     return out
+
+
+def apo_expand(e):
+    """an "apo" element in terms of the basic grammar: the literal apostrophe is the FIRST one of the run, i.e. it belongs
+    to the text in front of the run (MediaWiki Parser::doQuotes: `$arr[$i - 1] .= "'"`)"""
+    _k, kind, where, body, word = e
+    if where == "close":
+        return [(kind, "q", list(body) + [("w", APO)]), ("w", word)]
+    return [("w", word), ("w", APO), (kind, "q", list(body))]
 
 
 KIND = {"*": "ul", "#": "ol", ";": "dt", ":": "dd"}
